@@ -81,6 +81,12 @@ macro_rules! cmp_arm {
 }
 
 #[macro_export]
+macro_rules! approx_arm {
+    (ord, $e:expr) => { Out::Bool($e) };
+    (noord, $e:expr) => { Out::Unsupported };
+}
+
+#[macro_export]
 macro_rules! bessel_arm {
     (bes, $x:expr, $f:ident) => { Out::Val(num_dual::BesselDual::$f($x.clone())) };
     (nobes, $x:expr, $f:ident) => { Out::Unsupported };
@@ -237,6 +243,9 @@ macro_rules! impl_calc {
                     ("le", _) => $crate::cmp_arm!($ord, a, b, <=),
                     ("gt", _) => $crate::cmp_arm!($ord, a, b, >),
                     ("ge", _) => $crate::cmp_arm!($ord, a, b, >=),
+                    ("abs_diff_eq", _) => $crate::approx_arm!($ord, approx::AbsDiffEq::abs_diff_eq(a, b, c.clone())),
+                    ("relative_eq", _) => $crate::approx_arm!($ord, approx::RelativeEq::relative_eq(a, b, c.clone(), c.clone())),
+                    ("ulps_eq", _) => $crate::approx_arm!($ord, approx::UlpsEq::ulps_eq(a, b, c.clone(), 4)),
                     _ => Out::Unsupported,
                 };
                 Ok(r)
